@@ -240,6 +240,17 @@ def c18_quote_schema():
     return {"package": "c18q", "id": 903, "version": 1, "byteOrder": "littleEndian", "types": types, "messages": [m]}
 
 
+def c18_ctrl_schema():
+    """Control characters (given as character references in the XML) inside
+    descriptive attributes: line feed, carriage return, tab."""
+    types = [header(), dim(), vardata(), T("nl", "uint8", description="line one\nline two", semanticType="tab\there"),
+             {"kind": "enum", "name": "E", "enc": "uint8", "description": "cr\rlf\n", "values": [{"name": "A", "value": "1", "description": "v\n"}]}]
+    m = G("M", 1, description="m\n\tx", fields=[F("f", 1, "nl", description="f\r\n")], data=[D("d", 2)])
+    m["data"][0].update(description="d\nd")
+    return {"package": "c18c", "id": 904, "version": 1, "description": "schema\ndescription", "byteOrder": "littleEndian",
+            "types": types, "messages": [m]}
+
+
 FP_LEXEMES = ["-INF", "INF", "+INF", "NaN", "-0.0", "0", "1e-3", "-1.5E+10", "3", "-2.5", "1024", "-1", "+1.25", ".5", "5.", "0.1"]
 FP_ONLY = {"float": ["3.4028234663852886e+38", "-3.4028234663852886e+38", "1.17549435e-38"],
            "double": ["1.7976931348623157e+308", "-1.7976931348623157e+308", "2.2250738585072014e-308",
